@@ -54,7 +54,7 @@ func C02(r *core.Run) {
 		"(R02.2) every Backend/VersionedBackend method of every implementation can return the error code its contract mandates (NoSuchBucket, NoSuchKey, BucketAlreadyExists, BucketNotEmpty, NoSuchVersion); " +
 		"(R02.3) no delete operation can return NoSuchKey (idempotence); (R02.4) every ErrorCode used has an explicit HTTP status and the five codes of the property map to 404/409, every handler error reaches httpError, ensureErrorResponse is total; " +
 		"(R02.5) CopyObject wires source to destination with the fetched object's contents, size and hash; (R02.6) bucket removal happens only on the non-empty-test's empty arm; " +
-		"(R01.2, shared) every PutObject replaces the stored bytes by one consumption of the input (fs: truncating open of the object path); (R10.7, shared) object deletion is never recursive; (R02.7) deleting a nested key on the fs backends prunes the directories it leaves empty, so an emptied bucket can be deleted. (R02.8) the existence check that may auto-create a bucket is applied only to the addressed bucket; R02.7 also requires the emptiness test to be of the very directory that is removed. (R02.9) the fs delete path does not hand a directory to Remove."
+		"(R01.2, shared) every PutObject replaces the stored bytes by one consumption of the input (fs: truncating open of the object path); (R10.7, shared) object deletion is never recursive; (R02.7) deleting a nested key on the fs backends prunes the directories it leaves empty, so an emptied bucket can be deleted. (R02.8) the existence check that may auto-create a bucket is applied only to the addressed bucket; R02.7 also requires the emptiness test to be of the very directory that is removed. (R02.9) the fs delete path does not hand a directory to Remove. (R02.10) the front end and the fs/bolt backends keep no serving-time copy of the store's state in process memory (no remembered directory, bucket or answer). (R02.11) a bolt cursor deletes only after the key it landed on was compared equal with the key sought."
 	r.NotDecided = "read-your-writes, overwrite/copy value semantics, agreement of whole responses with a reference model, auto-bucket behaviour"
 	rule021(r)
 	rule022(r)
@@ -69,6 +69,8 @@ func C02(r *core.Run) {
 	rule027(r)
 	rule028(r)
 	rule029(r)
+	rule0210(r, "C02")
+	rule0211(r)
 }
 
 // handler exceptions for R02.1, one reason each
@@ -676,4 +678,190 @@ func rule029(r *core.Run) {
 		r.Check(ok, "R02.9", key(name, "a directory is not a key"), pos(r, objRemove), "Remove(object path) unreachable when Stat(object path).IsDir()",
 			"the object file is removed without first ruling out that the path is a directory: DELETE of a never-written key that is a directory on disk answers 500 on a real filesystem (and on MemMapFs drops the directory entry of the keys below it)")
 	}
+}
+
+// statelessStructs hold configuration and handles only: the state of truth is
+// in the store they front (the filesystem, the bolt file, the Backend). The
+// memory backend and the uploader ARE stores and are not listed.
+var statelessStructs = map[string]string{
+	"gofakes3.GoFakeS3":           "the HTTP front end (state lives in the Backend)",
+	"s3afero.MultiBucketBackend":  "multi-bucket fs backend (state lives in the filesystem)",
+	"s3afero.SingleBucketBackend": "single-bucket fs backend (state lives in the filesystem)",
+	"s3afero.metaStore":           "fs metadata store (state lives in the metadata filesystem)",
+	"s3bolt.Backend":              "bolt backend (state lives in the bolt file)",
+	"gofakes3.withCORS":           "CORS wrapper",
+}
+
+var syncMapMutators = map[string]bool{"Store": true, "Delete": true, "LoadOrStore": true, "LoadAndDelete": true, "Swap": true, "CompareAndSwap": true, "CompareAndDelete": true, "Clear": true}
+
+// rule0210 — no serving-time copy of the store's state in process memory.
+func rule0210(r *core.Run, prop string) {
+	r.Rule("R02.10", "the front end and the filesystem / bolt backends keep no in-memory copy of what the store holds: no map, sync.Map or package-level map of theirs is updated outside construction (a remembered directory, bucket, ETag or HEAD answer goes stale as soon as another operation — a delete that prunes the directory, an explicit create, an overwrite, a restart — changes the store, and the next answer is the remembered one)")
+	n := 0
+	for _, fn := range r.P.RepoFuncs() {
+		f := fn
+		if r.P.PkgShort(f) == "cmd" {
+			continue
+		}
+		core.Instrs(f, func(in ssa.Instruction) {
+			var container ssa.Value
+			what := ""
+			switch x := in.(type) {
+			case *ssa.MapUpdate:
+				container, what = x.Map, "map entry written"
+			case ssa.CallInstruction:
+				cn := r.P.CalleeName(x)
+				switch {
+				case cn == "builtin:delete" && len(x.Common().Args) > 0:
+					container, what = x.Common().Args[0], "map entry deleted"
+				case strings.HasPrefix(cn, "(*sync.Map)."):
+					if !syncMapMutators[strings.TrimPrefix(cn, "(*sync.Map).")] || len(x.Common().Args) == 0 {
+						return
+					}
+					container, what = x.Common().Args[0], cn
+				default:
+					return
+				}
+			default:
+				return
+			}
+			n++
+			// where does the container live? Only its own address counts (the map loaded from a field /
+			// the sync.Map that is a field / a package-level variable) — not what its entries derive from.
+			owner := containerOwner(r, container, 0)
+			if owner == "" {
+				return
+			}
+			okCtx := isConstruction(r, f) || f.Name() == "init"
+			r.Check(okCtx, "R02.10", key(fname(r, f), "serving-time in-memory state", owner, what), pos(r, in), "construction only",
+				what+" in "+owner+" while serving: a remembered copy of the store's state that later operations (or a restart) do not keep in step")
+		})
+	}
+	r.Held("R02.10", key("repo", "container mutations enumerated"), "", sprintf("%d map / sync.Map mutations examined", n))
+	if n < 10 {
+		r.Unresolved("R02.10: only %d map mutations found in the repository (expected the stores' own)", n)
+	}
+	_ = prop
+}
+
+// rule0211 — a bolt cursor deletes only the record it was verified to stand on.
+func rule0211(r *core.Run) {
+	r.Rule("R02.11", "in the bolt backend every (*bolt.Cursor).Delete that can follow a Seek on that cursor is guarded by a byte comparison of the key Seek returned with the key that was sought, with the outcome 'equal': Seek lands on the next key when the sought one is absent, and an unverified Delete removes a neighbouring record (a delete of a missing key deletes another key)")
+	n := 0
+	for _, fn := range r.P.FuncsOfPkg("s3bolt") {
+		f := fn
+		var dels, seeks []*ssa.Call
+		core.Instrs(f, func(in ssa.Instruction) {
+			if c, ok := in.(*ssa.Call); ok {
+				switch r.P.CalleeName(c) {
+				case "(*go.etcd.io/bbolt.Cursor).Delete":
+					dels = append(dels, c)
+				case "(*go.etcd.io/bbolt.Cursor).Seek":
+					seeks = append(seeks, c)
+				}
+			}
+		})
+		for _, d := range dels {
+			for _, sk := range seeks {
+				if !core.Reaches(sk, d) {
+					continue
+				}
+				n++
+				verified := false
+				for _, ec := range expandedConds(d) {
+					a, b, eq, ok := byteCompare(r, ec.cond, ec.truth)
+					if !ok || !eq {
+						continue
+					}
+					isKey := func(v ssa.Value) bool {
+						ex, ok := v.(*ssa.Extract)
+						return ok && ex.Tuple == ssa.Value(sk) && ex.Index == 0
+					}
+					sought := sk.Call.Args[1]
+					same := func(v ssa.Value) bool {
+						return v == sought || sameValue(r, v, sought, 0) || r.P.SliceOf(v, core.SliceOpts{Depth: -1}).HasValue(sought)
+					}
+					if isKey(a) && same(b) || isKey(b) && same(a) {
+						verified = true
+					}
+				}
+				r.Check(verified, "R02.11", key(fname(r, f), "cursor delete verified against the sought key", sprintf("#%d", n)), pos(r, d), "Delete only when Seek returned the sought key",
+					"Cursor.Delete after Cursor.Seek without checking that the key Seek landed on is the one sought: when the key is absent the next record is deleted instead")
+			}
+		}
+	}
+	r.Held("R02.11", key("s3bolt", "cursor deletes enumerated"), "", sprintf("%d Seek→Delete pairs", n))
+}
+
+// containerOwner names the stateless struct field or package-level variable a
+// map / *sync.Map value is, or "".
+func containerOwner(r *core.Run, v ssa.Value, depth int) string {
+	if v == nil || depth > 6 {
+		return ""
+	}
+	fieldOwner := func(fa *ssa.FieldAddr) string {
+		// the field itself, or any enclosing field it is nested in
+		var cur ssa.Value = fa
+		for i := 0; i < 6; i++ {
+			f, ok := cur.(*ssa.FieldAddr)
+			if !ok {
+				break
+			}
+			fld := r.P.FieldName(f)
+			if i := strings.LastIndex(fld, "."); i > 0 {
+				if why, ok := statelessStructs[fld[:i]]; ok {
+					return fld + " — " + why
+				}
+			}
+			cur = f.X
+			if ld, ok := cur.(*ssa.UnOp); ok && ld.Op == token.MUL {
+				cur = ld.X
+			}
+		}
+		return ""
+	}
+	switch x := v.(type) {
+	case *ssa.FieldAddr:
+		return fieldOwner(x)
+	case *ssa.Global:
+		g := r.P.GlobalName(x)
+		if strings.HasPrefix(g, "gofakes3.") || strings.HasPrefix(g, "s3afero.") || strings.HasPrefix(g, "s3bolt.") {
+			return "package-level " + g
+		}
+	case *ssa.UnOp:
+		if x.Op != token.MUL {
+			return ""
+		}
+		if lv := core.BlockLocalLoad(x); lv != ssa.Value(x) {
+			return containerOwner(r, lv, depth+1)
+		}
+		return containerOwner(r, x.X, depth+1)
+	case *ssa.Phi:
+		for _, e := range x.Edges {
+			if o := containerOwner(r, e, depth+1); o != "" {
+				return o
+			}
+		}
+	case *ssa.ChangeType:
+		return containerOwner(r, x.X, depth+1)
+	case *ssa.Field:
+		// value of a struct field loaded as a whole struct
+		return containerOwner(r, x.X, depth+1)
+	case *ssa.Parameter:
+		// a helper that takes the map / *sync.Map: look at what its callers pass
+		fn := x.Parent()
+		for i, p := range fn.Params {
+			if p != x {
+				continue
+			}
+			for _, site := range r.P.StaticCallers(fn) {
+				if i < len(site.Common().Args) {
+					if o := containerOwner(r, site.Common().Args[i], depth+1); o != "" {
+						return o
+					}
+				}
+			}
+		}
+	}
+	return ""
 }
